@@ -64,7 +64,7 @@ def run(ctx):
             ctx.check(ok, "C08.share.order-cmp", chk.path, "order predicate is share.namespace() < prev_ns", key="C08.share.order-cmp")
     o = ctx.anchor(T + "eds::ExtendedDataSquare::from_ods")
     if o:
-        require_guard(ctx, o, Cmp(["len:a1", "call:*sqrt"], ["len:a1"], pass_op="Eq", name="ods is square"), "C08.from_ods.square")
+        require_guard(ctx, o, Cmp(["len:a1", "call:*sqrt"], ["len:a1"], pass_op="Eq", name="ods is square", local_only=True), "C08.from_ods.square")
         ex = [x for x in exit_sites(o) if x["kind"] in ("accept", "may")]
         ok = bool(ex) and all(x["kind"] == "may" and has_all(ctx.leaves(x["expr"]), ["call:" + N, "a2"]) for x in ex)
         ctx.check(ok, "C08.from_ods.through-new", o.path, "result is returned through ExtendedDataSquare::new(.., app_version)", key="C08.from_ods.through-new")
